@@ -22,10 +22,10 @@ RULE = ("Hypothesis-generated projects (nested packages; experiments, commands, 
         "no other version directory; source rows and trees unchanged; archive succeeds iff the selection is non-empty. "
         "Non-trivial = selection is a strict non-empty subset of the rows, or >=2 versions of one task selected, or package "
         "depth >=2. Distinct = SHA-1 of case JSON.")
-ASSUMPTIONS = ["symlinks inside experiment outputs are outside the generated domain",
+ASSUMPTIONS = ["symbolic links inside experiment outputs are part of the tree (relative, to a directory, dangling); they must come back as the same links",
                "every recorded version has its directory in the source project (C06/C12 cover the other cases)"]
 ESSENTIAL = ["latest", "task_closure_with_nonarchivable_between", "diamond_below_task", "nested_pkg", "name_leading_dash_root_pkg",
-             "undefined_task_rows", "empty_output_dir", "equal_ts_across_tasks", "null_commit", "dirty_flag", "empty_selection",
+             "undefined_task_rows", "empty_output_dir", "symlink_in_output", "equal_ts_across_tasks", "null_commit", "dirty_flag", "empty_selection",
              "out_dir", "out_file", "restore_into_cleaned"]
 TECHNIQUE = "property-based round-trip testing (Hypothesis): archive -> restore with real tar; model selection + tree snapshots as oracle"
 LEVEL_TEXT = "Randomised round-trip search over index contents, output trees and flags; exact equality of rows and trees in both projects."
@@ -35,7 +35,9 @@ NAMES = ["e", "x", "-x", "_u", "T1", "9", "a-b", "-", "_"]
 HASHES = [None, None, "a" * 40, "0123456789abcdef0123456789abcdef01234567", "f" * 40, "00ff" * 10]
 TREE_ENTRIES = [["out.txt", "hello\n"], ["a b.txt", "space"], ["-dash", "dash"], ["üni.dat", "\xff\xfe\x00"], ["x.task.5", None],
                 ["x.task.5/inner", "look-alike"], ["sub/deep/file", "deep"], ["empty_dir", None], ["zero.bin", ""],
-                ["stdout.log", "log line\n"], ["args.json", "[1]"], ["y.task", None], ["sub/--opt", "x"], ["big.bin", "B" * 1000000]]
+                ["stdout.log", "log line\n"], ["args.json", "[1]"], ["y.task", None], ["sub/--opt", "x"],
+                ["latest.txt", "LINK:out.txt"], ["dlink", "LINK:sub"], ["dangling", "LINK:/nonexistent/dataset"],
+                ["sub/up", "LINK:../out.txt"], ["big.bin", "B" * 1000000]]
 
 
 @st.composite
@@ -206,6 +208,8 @@ def _run(case, src, dst, aux):
             labels.add("nested_pkg")
         if not r[4]:
             labels.add("empty_output_dir")
+        if any(isinstance(TREE_ENTRIES[k][1], str) and TREE_ENTRIES[k][1].startswith("LINK:") for k in r[4]):
+            labels.add("symlink_in_output")
         if r[2] is None:
             labels.add("null_commit")
         if r[3]:
